@@ -243,7 +243,11 @@ class Instance(Component):
                 upper_bound, "upper_bound", 0, 1_000_000_000_000_000))
         if lb > ub:
             raise ValueError(f"lower bound = {lb} > upper_bound = {ub}!")
-        dtype: Final[np.dtype] = int_range_to_dtype(min_value=0, max_value=ub)
+        # If one matrix is all zeros, then ub=0, but the other matrix may
+        # still hold large values which must not be truncated when stored.
+        dtype: Final[np.dtype] = int_range_to_dtype(
+            min_value=0, max_value=max(ub, int(distances.max()),
+                                       int(flows.max())))
         #: the scale of the problem
         self.n: Final[int] = shape[0]
         if name is None:
